@@ -567,7 +567,10 @@ pub fn value_sweep(tier: Tier) -> Vec<Scenario> {
                 };
                 // one-unit steps as probes (as L requests they would make every remainder of a large order reachable)
                 let mut p = unit_probes(&cfg, &menu);
-                p.extend(probes::fee_creates(&cfg, &menu));
+                // fee-deviant creates where the rate has more decimal places than common fixed-point types carry
+                if ra.len() > 12 || rb.len() > 12 {
+                    p.extend(probes::fee_creates(&cfg, &menu));
+                }
                 v.push(scen(leak(format!("sweep/size{sz}/prices{lo}-{hi}/rates{ra}-{rb}")), cfg, menu, p));
             }
         }
